@@ -468,6 +468,13 @@ def gen_join():
         out.append((fam, "non-equi-condition+derived-operands",
                     sel(join(kind, sub(lt, "s"), sub(ru, "r"), ("le", C("s.a"), C("r.a"))), items), 2))
     out.append(("join-inner", "cross", sel(join("CROSS", tbl("t"), tbl("u")), ALL4), 2))
+    # a join to a derived table of AT MOST one row whose columns are not used (eliminate_joins): with no row at all an inner / cross
+    # join returns nothing, a left join keeps the outer rows
+    for tag, q1 in [("limit-1", sel(tbl("u"), [(UA, "a")], order=[(0, False, True)], limit=1)),
+                    ("aggregate", sel(tbl("u"), [(agg("MAX", UA), "a")])),
+                    ("aggregate-where", sel(tbl("u"), [(agg("COUNT_STAR"), "a")], where=("isnull", UA)))]:
+        out.append(("join-inner", "cross-to-one-row-derived." + tag, sel(join("CROSS", tbl("t"), sub(q1, "s")), [(TA, "c0"), (TB, "c1")]), 2))
+        out.append(("join-left", "left-to-one-row-derived." + tag, sel(join("LEFT", tbl("t"), sub(q1, "s"), L(True)), [(TA, "c0"), (TB, "c1")]), 2))
     for wtag, w in wheres[1:] + [("+where-equi", ("eq", TA, UA)), ("+where-non-equi", ("lt", TA, UA))]:
         out.append(("join-inner", "cross" + wtag, sel(join("CROSS", tbl("t"), tbl("u")), ALL4, where=w), 2))
     return out
